@@ -138,6 +138,14 @@ CLAIMED = {
             'covariance feeding the paired-t variance; Result.get_means for 2-4 dimensional evaluation arrays.',
             'numerical values of the t distribution are trusted (only its contract is used); Wilcoxon rank-sum and bootstrap percentile '
             'tests outside; dof must be a concrete number'),
+    'C19': ('DESIGN.md 4/C19',
+            'Real _get_searchlight_neighbors run with a SYMBOLIC radius on every (sampled|every) centre of small volumes: the comparisons '
+            'against the radius fork into the finitely many radius classes and on each path the returned voxel set is compared with '
+            '"squared integer distance below the radius" for every voxel of the volume; concrete radii 0.5-2.5 in addition; '
+            'get_volume_searchlight on 2x2x2 / 3x2x2 masks with a symbolic threshold: accepted centres and linear-index neighbour lists; '
+            'get_searchlight_RDMs with symbolic data: RDM i proved equal to the direct reference RDM of centre i\'s columns (euclidean, '
+            'correlation), in centre order, incl. the chunked branch for 1001 centres (thorough); evaluate_models_searchlight order for n_jobs=1.',
+            'n_jobs>1 (joblib worker schedules) outside; volumes <=4x4x4; distances use the float sqrt the library uses (stated in the oracle)'),
 }
 
 NA = {
